@@ -450,7 +450,7 @@ def clause_vars(c):
     return vs
 
 def gen_base(rng):
-    o = progs.Opts(control=rng.random() < 0.75, cut=rng.random() < 0.5, opaque_cut=False, builtins=rng.random() < 0.6, max_preds=4)
+    o = progs.Opts(control=rng.random() < 0.75, cut=rng.random() < 0.5, opaque_cut=rng.random() < 0.3, builtins=rng.random() < 0.6, max_preds=4)
     p = progs.gen_program(rng, o)
     clauses = [list(c) for c in p['clauses']]
     extras = [extra_fact_pred(rng, 'r%d' % i) for i in range(rng.randrange(1, 3))]
